@@ -4,8 +4,8 @@ import worldhist as WH
 import worldgen as W
 import radlib as R
 ID = "C08"
-LEAN_TARGETS = ["Rsp.Props.C08"]
-THEOREMS = ["Rsp.Props.C08.realmPattern_plain", "Rsp.Props.C08.realmPattern_star", "Rsp.Props.C08.realmPattern_regex", "Rsp.Props.C08.parseFrag_plain",
+LEAN_TARGETS = ["Rsp.Props.C08", "Rsp.Tie.C08"]
+THEOREMS = ["Rsp.Tie.C08.realmRegFlags_tie", "Rsp.Props.C08.realmPattern_plain", "Rsp.Props.C08.realmPattern_star", "Rsp.Props.C08.realmPattern_regex", "Rsp.Props.C08.parseFrag_plain",
             "Rsp.Props.C08.fragSearch_lits", "Rsp.Props.C08.plain_realm_matches_iff", "Rsp.Props.C08.star_realm_matches_all", "Rsp.Props.C08.rxEval_meets_spec",
             "Rsp.Props.C08.id2realm_first", "Rsp.Props.C08.id2realm_none_iff", "Rsp.Props.C08.realmServers_table", "Rsp.Props.C08.noServerOutcome_table"]
 RULE = ("ordered lists of 1..6 realm blocks mixing plain names (letters, digits, '.', '-', case variants, names that are suffixes of each other), '*' and /regex/ realms, each with/without "
